@@ -479,23 +479,13 @@ func c20SeqWorker(args []string) int {
 }
 
 func c20SeqChunkInChild(from, to, maxLen int) *c20SeqSummary {
-	exe, err := os.Executable()
+	out, crash, err := c20Child(nil, "c20seqworker", fmt.Sprint(from), fmt.Sprint(to), fmt.Sprint(maxLen))
 	if err != nil {
-		return &c20SeqSummary{Error: err.Error()}
+		return &c20SeqSummary{Error: crash}
 	}
-	cmd := exec.Command(exe, "c20seqworker", fmt.Sprint(from), fmt.Sprint(to), fmt.Sprint(maxLen))
-	cmd.Stderr = nil
-	out, err := cmd.Output()
 	sm := &c20SeqSummary{}
-	if err != nil {
-		msg := err.Error()
-		if ee, ok := err.(*exec.ExitError); ok && len(ee.Stderr) > 0 {
-			msg += ": " + string(ee.Stderr[:c20MinInt(len(ee.Stderr), 400)])
-		}
-		return &c20SeqSummary{Error: fmt.Sprintf("worker %d..%d: %s", from, to, msg)}
-	}
 	if err := json.Unmarshal(out, sm); err != nil {
-		return &c20SeqSummary{Error: fmt.Sprintf("worker %d..%d: %v", from, to, err)}
+		return &c20SeqSummary{Error: fmt.Sprintf("child failed: worker %d..%d: %v", from, to, err)}
 	}
 	return sm
 }
@@ -931,6 +921,9 @@ func c20ILPrefixes(cs c20ILCase, dir string, depth int) [][]int {
 	return cur
 }
 
+// time cap for the large unreduced exploration of the thorough tier
+var c20ILDeadline, c20ILExpired int64
+
 func c20NewILStats() *c20ILStats {
 	return &c20ILStats{outcomes: map[string]int{}, traces: map[string]struct{}{}, fails: map[string]string{}, failSched: map[string][]int{}}
 }
@@ -954,6 +947,10 @@ func c20ExploreILFrom(cs c20ILCase, dir string, wantTraces bool, prefix []int) *
 	st := c20NewILStats()
 	sched := append([]int(nil), prefix...)
 	for {
+		if dl := atomic.LoadInt64(&c20ILDeadline); dl != 0 && st.leaves%256 == 0 && time.Now().UnixNano() > dl {
+			atomic.StoreInt64(&c20ILExpired, 1)
+			return st
+		}
 		alts, trace, outcome, fails := c20RunSchedule(cs, dir, sched, wantTraces)
 		st.leaves++
 		st.steps += int64(len(alts))
@@ -1120,8 +1117,15 @@ func c20RealCrash() (note string, ok bool) {
 		e2 = err
 	} else {
 		nw := c20NewNet()
-		e2 = r.Serve(nw.listen("x", "x"))
-		_ = r.storage.log.Close()
+		n := &c20Node{r: r, lr: nw.listen("x", "x"), serveCh: make(chan error, 1)}
+		go func() { n.serveCh <- r.Serve(n.lr) }()
+		if err := n.waitServing(20 * time.Second); err == nil {
+			e2 = nil // serving on a directory whose lock file is there
+			_ = n.stop()
+		} else {
+			e2 = <-n.serveCh
+			_ = r.storage.log.Close()
+		}
 	}
 	// the simulated crash of part (1) leaves: lock file with "<pid>\n", no temp file
 	ok = lock && temps == 0 && strings.TrimSpace(string(content)) == fmt.Sprint(pid) && e1 == ErrLockExists && e2 == ErrLockExists && id == c20Ident{1, 1}
@@ -1173,8 +1177,12 @@ func c20PartLock(ctx *c20Ctx) bool {
 	executed, skipped, swallowed := 0, 0, 0
 	for i, sm := range sums {
 		if sm.Error != "" {
-			ctx.harnessErr("lockseq", "chunk %d: %s", i, sm.Error)
 			complete = false
+			if strings.HasPrefix(sm.Error, "child failed") {
+				ctx.harnessErr("lockseq", "chunk %d: %s", i, sm.Error)
+			} else {
+				ctx.run.Violation("process-crashed:lockseq:"+c20Normalize(sm.Error), fmt.Sprintf("the process running the storage sequences %d.. died: %s", i*chunk, sm.Error), map[string]interface{}{"part": "lock", "kind": "chunk", "from": i * chunk, "to": (i + 1) * chunk, "max_len": maxLen})
+			}
 			continue
 		}
 		executed += sm.Executed
@@ -1284,12 +1292,18 @@ func c20PartLock(ctx *c20Ctx) bool {
 		_ = os.MkdirAll(pdir, 0700)
 		prefixes := c20ILPrefixes(cs, pdir, 5)
 		parts := make([]*c20ILStats, len(prefixes))
+		atomic.StoreInt64(&c20ILDeadline, time.Now().Add(10*time.Minute).UnixNano())
 		c20Parallel(len(prefixes), ctx.workers, func(i int) {
 			dir := filepath.Join(root, fmt.Sprintf("p%d", i))
 			_ = os.MkdirAll(dir, 0700)
 			parts[i] = c20ExploreILFrom(cs, dir, false, prefixes[i])
 			_ = os.RemoveAll(dir)
 		})
+		atomic.StoreInt64(&c20ILDeadline, 0)
+		if atomic.LoadInt64(&c20ILExpired) != 0 {
+			complete = false
+			ctx.note("the unreduced three-contender exploration hit its 10 minute cap and is incomplete")
+		}
 		tot := c20NewILStats()
 		for _, p := range parts {
 			tot.merge(p)
